@@ -80,11 +80,13 @@ func profileFor(prop string) *Profile {
 	// state invariants must also hold on a chain restarted from a zero-height export (F9): a minority of the runs of
 	// these profiles export and continue
 	switch prop {
-	case "C01", "C03", "C05", "C11", "C13", "C14", "C15", "C16", "C17", "C18":
-		p.Faults["expcont"] = true
-		p.ExpContRuns = 0.12
 	case "C19":
 		p.ExpContRuns = 0.7
+	case "C20":
+		// replicas run in lockstep; the export path is C19's
+	default:
+		p.Faults["expcont"] = true
+		p.ExpContRuns = 0.12
 	}
 	return p
 }
@@ -141,6 +143,9 @@ func NewGen(seed int64, prop string, run int, thorough bool) *Gen {
 	}
 	if g.chance(0.3) {
 		g.consumers = append(g.consumers, g.providers[0])
+	}
+	if g.chance(0.3) {
+		g.owners = append(g.owners, g.providers[len(g.providers)-1]) // a provider that also owns other providers
 	}
 
 	cfg.WhaleAccount = -1
